@@ -26,7 +26,8 @@ def load_csv(csv_path: str) -> np.array:
     logger.info("Loading file: %s ...", csv_path)
 
     try:
-        csv = np.loadtxt(csv_path, delimiter=",")
+        # `ndmin=2` keeps a single-row file as a one-sample matrix
+        csv = np.loadtxt(csv_path, delimiter=",", ndmin=2)
 
     except OSError as e:
         logger.error(e)
@@ -54,7 +55,8 @@ def load_txt(txt_path: str) -> np.array:
     logger.info("Loading file: %s...", txt_path)
 
     try:
-        txt = np.loadtxt(txt_path, delimiter=" ")
+        # `ndmin=2` keeps a single-row file as a one-sample matrix
+        txt = np.loadtxt(txt_path, delimiter=" ", ndmin=2)
 
     except OSError as e:
         logger.error(e)
